@@ -218,6 +218,9 @@ func verifyFunctionOnce(l *Loaded, specs *Specs, ct *Contract, localAlias map[st
 	w.topFrame = nil
 	w.skipClause = skip
 	w.unrollN = unroll
+	if unroll > 0 {
+		w.deadline = time.Now().Add(40 * time.Second)
+	}
 	w.forgetMark = 0
 	w.witnessTerms = nil
 	w.rawFacts = nil
@@ -761,6 +764,25 @@ func solveAll(w *World, obls []*Obligation, timeoutS, seed int) {
 		}(o)
 	}
 	wg.Wait()
+	// second opinion under less load: an obligation that only timed out while everything ran at once is tried
+	// again alone (a loaded machine must not turn into an alarm); refutations and "unknown" stand
+	retried := 0
+	for _, o := range obls {
+		if retried >= 6 {
+			break
+		}
+		if o.Expect != "unsat" || o.Result == nil || o.Result.Status != "timeout" || o.KnownFailing || (o.Clause != nil && o.Clause.Withdrawn) {
+			continue
+		}
+		retried++
+		r := solve(o.Name+".retry", o.query(w), o.Values, timeoutS, seed+1, "")
+		if r.Status == "unsat" {
+			r.Solver += "+retry"
+			r.Ms += o.Result.Ms
+			o.Result = &r
+			o.Relaxed = nil
+		}
+	}
 }
 
 func (o *Obligation) ok() bool {
